@@ -109,6 +109,14 @@ def run_direct(case):
         # the read-only directory's path starts with the writable one's (cache / cache.dist is a usual layout)
         ro = os.path.join(base, 'rw2.dist')
         shutil.copytree(rw, ro)
+        # a distribution's read-only directory usually holds the tables of many firmware builds (older files first)
+        for x in range(case.get('ro_extra', 0)):
+            pth = os.path.join(ro, '%08X.json' % ((crc + 0x01000193 * (x + 7)) & 0xFFFFFFFF))
+            if not os.path.exists(pth):
+                shutil.copy(path, pth)
+                os.utime(pth, (1500000000 + x, 1500000000 + x))
+        if case.get('ro_extra', 0) > 64:
+            out.feat('ro-directory-with-many-files')
         before = _dirstate(ro)
         check_fetch(TocCache(rw_cache=rw), 'intact rw', True)
         check_fetch(TocCache(ro_cache=ro), 'intact ro', True)
@@ -197,7 +205,7 @@ def direct_case(draw):
             entries.append({'group': g, 'name': nm, 'type': draw(st.sampled_from(sorted(PARAM_TYPES) + [0x05])), 'ro': draw(st.booleans()),
                             'extended': draw(st.booleans()), 'ident': draw(st.sampled_from([i, i, i + 255, i + 1000]))})
     crc = draw(st.one_of(st.integers(0, 0xFFFFFFFF), st.sampled_from([0, 1, 0x0ABCDEF1, 0x1ABCDEF1, 0x00000010, 0xFFFFFFFF, 0x000000FF])))
-    return {'kind': kind, 'entries': entries, 'crc': crc}
+    return {'kind': kind, 'entries': entries, 'crc': crc, 'ro_extra': draw(st.sampled_from([0, 0, 3, 70, 200]))}
 
 
 # ---------------------------------------------------------------- concurrent inserts (several Crazyflies sharing one cache directory)
